@@ -7,6 +7,7 @@
 
 mod engines {
 	pub mod encoding;
+	pub mod transcode;
 	pub mod tomlorder;
 }
 mod props {
@@ -17,6 +18,7 @@ mod props {
 	pub mod c10;
 	pub mod c12;
 	pub mod c07;
+	pub mod c11;
 }
 mod corpus;
 mod gen;
@@ -62,6 +64,10 @@ fn main() {
 			"C07" => {
 				engines::encoding::run(&mut out, &mut rng.fork(), thorough);
 				props::c07::run(&mut out, &mut rng.fork(), thorough);
+			}
+			"C11" => {
+				engines::transcode::run(&mut out, &mut rng.fork(), thorough);
+				props::c11::run(&mut out, &mut rng.fork(), thorough);
 			}
 			_ => {
 				eprintln!("unknown property {prop}");
